@@ -22,7 +22,7 @@ def run_generic(check, name, shapes, make, to_scenario, compare, classify, descr
     """Explore, validate witnesses natively, confirm counterexamples natively (same scenario builder), report."""
     records, errors, summ = msym.run_shapes(check, name, shapes, make, budget_s=budget_s)
     wit = [r for r in records if r["kind"] == "witness"]
-    vio = [r for r in records if r["kind"] == "violation"]
+    vio = [r for r in records if r["kind"] == "violation" and (getattr(check, "only_clauses", None) is None or r["clause"] in check.only_clauses)]
     covers = {}
     for r in records:
         if r["kind"] == "cover":
@@ -477,22 +477,58 @@ def selection_search(v):
     return None
 
 
+def selection_search_other(v):
+    """Out-of-range preselection after an ordinary key: learn a non-default candidate for a word, then type the word with a suffix
+    (the carried-over choice can sit far down a long list); also plain typing of words with long lists. In-contract calls only."""
+    import obl_assembly
+    keys = obl_assembly.char_keys()
+    cfg = {"layout": "avro_phonetic", "database": REPO + "/data", "opts": {"phonetic_suggestion": True}}
+    words = ["gan", "ami", "kotha", "desh", "boi", "a", "k"]
+    first = [{"steps": [{"op": "new", "config": cfg}] + [{"op": "key", "key": keys[ch], "sel": 0} for ch in w]} for w in words]
+    res = run_replay(first)
+    scs = []
+    for w, r in zip(words, res):
+        last = r["results"][-1]
+        if "panic" in last:
+            return first[words.index(w)], last, "typing %r panics: %s" % (w, last["panic"])
+        sug = last.get("suggestion", {})
+        if sug.get("kind") != "full":
+            continue
+        if sug["sel"] >= sug["len"]:
+            return first[words.index(w)], last, "typing %r returns %d candidates with previously-selected index %d" % (w, sug["len"], sug["sel"])
+        for i in range(sug["len"]):
+            for sfx in ("o", "e", "er", "ta", "gulo"):
+                steps = [{"op": "new", "config": cfg}] + [{"op": "key", "key": keys[ch], "sel": 0} for ch in w] + [{"op": "commit", "index": i}]
+                steps += [{"op": "key", "key": keys[ch], "sel": 0} for ch in w + sfx]
+                scs.append(({"steps": steps}, w, i, sfx))
+    out = run_replay_parallel([s for s, _, _, _ in scs])
+    for (sc, w, i, sfx), r in zip(scs, out):
+        for x in r["results"]:
+            if "panic" in x:
+                return sc, x, "typing %r, committing candidate %d, typing %r panics: %s" % (w, i, w + sfx, x["panic"])
+            sug = x.get("suggestion", {})
+            if sug.get("kind") == "full" and sug["sel"] >= sug["len"]:
+                return sc, x, "typing %r, committing candidate %d, then typing %r returns %d candidates with previously-selected index %d" % (
+                    w, i, w + sfx, sug["len"], sug["sel"])
+    return None
+
+
 def obl_phonetic_glue(check, max_n, budget_s=None):
     shapes = []
     for ev in ("key", "backspace", "commit", "finish"):
         for n in range(0, max_n + 1):
             for sug in (True, False):
                 for m in ((0,) if n == 0 else (1, 3)):
-                    for k in ((1, 2, 3) if ev in ("key", "backspace") and sug else (1,)):
+                    for k in ((1, 2, 3, 10) if ev in ("key", "backspace") and sug else (1,)):
                         if ev == "commit" and n == 0:
                             continue     # no list was returned: nothing to commit in contract
                         shapes.append(dict(event=ev, n=n, m=m, k=k, sug=sug))
     check.bounds["phonetic_glue"] = dict(typed_chars="0..%d printable ASCII" % max_n, key="all 2^16 codes", modifier="2^8", selection_byte="valid for the list shown before",
-                                         list_shown_before="1 or 3 candidates", list_returned_now="1..3 candidates, preselection < length (assembly contract)",
+                                         list_shown_before="1 or 3 candidates", list_returned_now="1, 2, 3 or 10 candidates, preselection < length (assembly contract)",
                                          events="key, backspace (ctrl symbolic), commit (index inside the shown list), finish")
     records, errors, summ = msym.run_shapes(check, "phonetic_glue", shapes, make_phonetic_event, budget_s=budget_s)
     wit = [r for r in records if r["kind"] == "witness"]
-    vio = [r for r in records if r["kind"] == "violation"]
+    vio = [r for r in records if r["kind"] == "violation" and (getattr(check, "only_clauses", None) is None or r["clause"] in check.only_clauses)]
     covers = set(r["name"] for r in records if r["kind"] == "cover")
     okc, bad = validate_witnesses(check, "phonetic_glue", wit, to_scenario=phonetic_event_scenario, compare=phonetic_event_compare, cap=1500)
     detail = "%d paths, %d witnesses replayed natively (%d agree on typed text/flag/kind)" % (summ["paths"], min(len(wit), 1500), okc)
@@ -525,6 +561,8 @@ def obl_phonetic_glue(check, max_n, budget_s=None):
         found = None
         if "selection_inside_list" in key and "punctuation key" in key:
             found = selection_search(vs[0])
+        elif "selection_inside_list" in key or "list_not_empty" in key:
+            found = selection_search_other(vs[0])
         if found is None:
             # generic: replay from the planted typed text
             for v in vs[:6]:
@@ -561,7 +599,15 @@ def io_overrides(st, ctx):
         return good
 
     def fs_read(it, args, callee):
-        return ok(Opaque("bytes", ("file",))) if decide("fs_read") else err(Opaque("io::Error"))
+        if not decide("fs_read"):
+            return err(Opaque("io::Error"))
+        # file content: 0..4 arbitrary bytes (every short prefix an interrupted save can leave) or longer (opaque beyond the bound)
+        n = ctx["io_n"]
+        ln = z3.BitVec("file%d_len" % n, 8)
+        k = st.choose([ln == 0, ln == 1, ln == 2, ln == 3, ln == 4, z3.UGT(ln, 4)])
+        ctx.setdefault("file_lens", []).append(k)
+        size = k if k < 5 else 8
+        return ok(SVec([st.sym_bv("file%d_b%d" % (n, j), 8) for j in range(size)]))
 
     def from_slice(it, args, callee):
         if decide("from_slice"):
@@ -659,7 +705,7 @@ def make_userfile(shape):
         model = st.get_model()
 
         def inputs(m):
-            return dict(event=ev, environment=[[n, bool(g)] for n, g in c.get("io_log", [])])
+            return dict(event=ev, environment=[[n, bool(g)] for n, g in c.get("io_log", [])], file_lengths=c.get("file_lens", []))
 
         def pred(m):
             return dict(panic=out[1].message) if out[0] == "panic" else dict(ok=True)
@@ -691,6 +737,10 @@ def make_userfile(shape):
 
 
 USERFILE_FAULTS = [
+    ("selection store is one byte long", [{"op": "write_user_file", "name": "phonetic-candidate-selection.json", "content": "{"}]),
+    ("selection store is two bytes long", [{"op": "write_user_file", "name": "phonetic-candidate-selection.json", "content": "{\""}]),
+    ("user auto-correct file is empty", [{"op": "write_user_file", "name": "autocorrect.json", "content": ""}]),
+    ("user auto-correct file is two bytes long", [{"op": "write_user_file", "name": "autocorrect.json", "content": "{\""}]),
     ("selection store holds invalid JSON", [{"op": "write_user_file", "name": "phonetic-candidate-selection.json", "content": "{\"a\":"}]),
     ("selection store is empty", [{"op": "write_user_file", "name": "phonetic-candidate-selection.json", "content": ""}]),
     ("selection store has the wrong shape", [{"op": "write_user_file", "name": "phonetic-candidate-selection.json", "content": "[1,2]"}]),
@@ -713,7 +763,7 @@ def userfile_native(vs, ev):
             scs.append({"steps": steps + [{"op": "new", "config": cfg}, {"op": "key", "key": keys["a"], "sel": 0}]})
             names.append(name)
     elif ev == "update":
-        for name, steps in USERFILE_FAULTS[4:]:
+        for name, steps in [f for f in USERFILE_FAULTS if f[1][0]["name"] == "autocorrect.json"]:
             st2 = [dict(s, mtime_plus=5) for s in steps]
             scs.append({"steps": [{"op": "new", "config": cfg}, {"op": "key", "key": keys["a"], "sel": 0}, {"op": "finish"}] + st2 + [{"op": "update", "config": cfg}, {"op": "key", "key": keys["a"], "sel": 0}]})
             names.append(name + " when the configuration is re-loaded")
@@ -737,7 +787,7 @@ def obl_userfiles(check, budget_s=None):
     check.bounds["userfile_faults"] = dict(events="context creation (PhoneticMethod::new), update_engine, candidate_committed",
                                            environment="every file-system and serde_json call may fail or succeed independently (over-approximates absent, empty, truncated-at-any-byte, wrong-shape files, missing or read-only directory)")
     records, errors, summ = msym.run_shapes(check, "userfile_faults", shapes, make_userfile, budget_s=budget_s)
-    vio = [r for r in records if r["kind"] == "violation"]
+    vio = [r for r in records if r["kind"] == "violation" and (getattr(check, "only_clauses", None) is None or r["clause"] in check.only_clauses)]
     covers = set(r["name"] for r in records if r["kind"] == "cover")
     name = "userfile_faults"
     if errors:
